@@ -351,7 +351,7 @@ var LexSpecs = []*LexSpec{
 			{"u3", Alt(Seq(C(0x20ac)), Seq(R(0x800, 0xffff), C('3')))},
 			{"u4", Alt(Seq(C(0x1f600)), Seq(R(0x10000, 0x10ffff), C('4')))},
 			{"nul", Seq(C(0))},
-		}, SynLits: []string{"z"}},
+		}, SynLits: []string{"z", "λx", "→"}},
 	{Name: "L06", Why: "nested [] {} (): number syntax with shared regular definitions",
 		Prods: []LProd{
 			{"_d", Seq(R('0', '9'))},
